@@ -43,7 +43,7 @@ def rand_type(rnd, depth, atoms):
         return {"k": "union", "as": [sub() for _ in range(rnd.randint(2, 3))]}
     if k == "optional":
         return {"k": "union", "as": [sub(), {"k": "base", "n": "none"}]}
-    return {"k": "type", "c": rnd.choice(["A", "B", "C", "int"])}
+    return {"k": "type", "c": rnd.choice(["A", "B", "C", "int", "any"])}
 
 
 def rand_value(rnd, T, scalars, depth=0):
